@@ -297,9 +297,9 @@ func runC08(c *Ctx) {
 			cases = append(cases, c08Case{Hosts: 3, Conns: 1, Forget: []int{2}, Ver: 4, PrepVer: 4, Kind: KExecute, Reprep: rp, Idem: idem})
 		}
 	}
-	if !c.Quick() {
+	{
 		base := cases
-		for rep := 0; rep < 40; rep++ {
+		for rep := 0; rep < c.Pick(3, 40); rep++ {
 			rng := c.Rng(rep)
 			for _, b := range base {
 				b.Hosts = 2 + rng.Intn(3)
